@@ -501,6 +501,30 @@ def gen_deep_args(rng):
     return (prog + use) if rng.random() < 0.5 else (use + prog)
 
 
+def gen_macro_arg_layout(rng):
+    """a macro ARGUMENT that mentions a label already defined at the call site while the layout is still provisional: an
+    auto-sized `%push` of a far forward label stands before that label and ends up wider than the two bytes it is counted
+    with when the invocation is read — the argument must denote the label's FINAL position (arguments are expressions
+    substituted into the body, not values computed when the macro is expanded); directly, through arithmetic, and
+    forwarded through a second macro"""
+    n = rng.choice([100, 249, 252, 253, 254, 255, 256, 300, 300, 300])
+    arg = rng.choice([["here"], ["here", "+", "1"], ["here", "*", "2"], ["2", "+", "here", "-", "1"]])
+    prog = [("mdef", "put", ["x"], [("push", 2, X(rng, ["$x"]))])]
+    inv = ("minv", "put", [X(rng, arg)])
+    if rng.random() < 0.4:
+        prog.append(("mdef", "fwd", ["y"], [("minv", "put", [X(rng, rng.choice([["$y"], ["$y", "+", "0"]]))]), ("op", "pc")]))
+        inv = ("minv", "fwd", [X(rng, arg)])
+    body = filler(rng, rng.choice([0, 0, 1, 3]))
+    body += [("apush", X(rng, ["far"]))]
+    if rng.random() < 0.3:
+        body += [("apush", X(rng, ["far", "+", "1"]))]
+    body += [("label", "here"), ("op", "jumpdest"), inv]
+    if rng.random() < 0.5:
+        body += [("push", 2, X(rng, ["here"]))]
+    body += filler(rng, n) + [("label", "far"), ("op", "jumpdest")]
+    return (prog + body) if rng.random() < 0.6 else (body + prog)
+
+
 def gen_macros(rng):
     """instruction macros: parameters, local labels in compound expressions, forwarding through nested
     invocations, local label as argument, clashes between local / outer / argument names, definition after use"""
